@@ -153,7 +153,9 @@ def r2_rebase(cx):
                     continue
                 if call_is(t, r"Offset as std::ops::Add(<.*>)?>::add$"):
                     other = [a for k, a in enumerate(t["args"]) if k not in args_t]
-                    if other and b.derives_from_call(other[0], r"Range::<.*Offset>::begin$", through_calls=False):
+                    # (`region.begin()`, or the view's accessor of it, `global_offset()`, applied to the view itself)
+                    go = [t2 for _, t2 in b.origin_calls(other[0], through_calls=False) if call_is(t2, r"RandomParser>::global_offset$") and ("param", 1) in b.origins(t2["args"][0], through_calls=False)] if other else []
+                    if other and (b.derives_from_call(other[0], r"Range::<.*Offset>::begin$", through_calls=False) or go):
                         rebased += 1
                     else:
                         bad.append("offset added to something that is not region.begin() at line %s" % t.get("ln"))
@@ -181,7 +183,7 @@ def _sc(t):
 PAIRS = ["cut", "get_slice", "stream", "size", "create_parser", "global_offset", "read_slice", "read_data"]
 
 
-def _callee_seq(F, f):
+def _callee_seq(F, f, _depth=0):
     out = []
     for n in hir_walk(F.tree(f)):
         if n.get("k") == "call":
@@ -191,6 +193,15 @@ def _callee_seq(F, f):
                 nm = re.sub(r"<.*?>", "", nm)
                 # a call to the type's own method: the sibling's counterpart is compared as its own pair
                 nm = re.sub(r"^reader::byte_(region::ByteRegion|slice::ByteSlice)::(::)?", "Self::", nm)
+                # the accessor of the absolute position of the view is `region.begin()`
+                if nm == "bases::parsing::RandomParser::global_offset":
+                    nm = "bases::types::range::Range::::begin"
+                # a view method written in terms of another method of the same view (`read_slice` calling `get_slice`): what
+                # that method does, so that it compares with a sibling that spells it out
+                rf_ = c.get("rfn")
+                if _depth == 0 and rf_ is not None and rf_ != f["id"] and nm.startswith("Self::") and nm.split("::")[-1] in PAIRS and nm != "Self::as_slice":
+                    out.extend(_callee_seq(F, F.fns[rf_], _depth + 1))
+                    continue
                 # a constructor function whose body is nothing but the struct literal is that struct literal
                 rf = c.get("rfn")
                 params = (F.hir[rf].get("params") or []) if rf is not None else []
@@ -211,7 +222,9 @@ def r3_siblings(cx):
         bb = [f for f in F.find(impl_self="reader::byte_slice::ByteSlice", item=m, closure=False) if f.get("impl_trait") in (None, "bases::parsing::RandomParser")]
         if len(a) != 1 or len(bb) != 1:
             raise AnchorLost("sibling pair %s: ByteRegion %d / ByteSlice %d" % (m, len(a), len(bb)))
-        sa, sb = _callee_seq(F, a[0]), _callee_seq(F, bb[0])
+        # conversions between the integer wrappers and `min` written as a call or as an `if` do not distinguish the siblings
+        pure = re.compile(r"^std::convert::(From::from|Into::into)$|^std::cmp::(min|max)$|^std::cmp::Ord::(min|max)$|^bases::types::\w+::\w+::(new|into_u64|into_usize|zero)$")
+        sa, sb = [x for x in _callee_seq(F, a[0]) if not pure.search(x)], [x for x in _callee_seq(F, bb[0]) if not pure.search(x)]
         # delegation: the region view turns itself into the slice view (`self.as_slice()`) and then does what the
         # slice view does, or calls the slice view's method of the same name -- the two agree by construction
         deleg = [x for x in sa if x != "Self::as_slice"]
@@ -314,7 +327,11 @@ def r5_file_reads_are_positioned(cx):
                     locks_s = {x[1] for x in b.origins(stt["args"][0]) if x[0] == "call" and call_is(b.term(x[1]), r"Mutex::<.*>::lock$")}
                     if locks_s and locks_s == locks_r and len(locks_r) == 1:
                         same_guard = True
-                ok = ok and good and bool(lk) and same_guard
+                # .. and to the locked reader itself, not to a handle taken out of it: a `try_clone()` of the file shares
+                # the file offset with the reader everybody else uses under the lock, and outlives the guard
+                escaped = sorted({callee_str(b.term(x[1])).split("::")[-1] for opnd_ in [rt["args"][0]] + [stt["args"][0] for _, stt in doms]
+                                  for x in b.origins(opnd_) if x[0] == "call" and call_is(b.term(x[1]), r"try_clone$", r"BufReader::<.*>::(get_ref|get_mut|into_inner)$", r"as_raw_fd$", r"as_fd$")})
+                ok = ok and good and bool(lk) and same_guard and not escaped
         cx.ob("R5", "R5/FileSource::%s" % m, ok, f, "FileSource::%s seeks to SeekFrom::Start(requested offset) and reads through the guard of one single lock() (one critical section) on every path" % m)
     g = F.one(impl_self="bases::io::file::FileSource", item="get_slice", trait="Source", closure=False)
     gb = F.body(g)
